@@ -1,6 +1,8 @@
 package ed25519
 
 import (
+	cryptorand "crypto/rand"
+	"crypto/sha512"
 	"bytes"
 	"crypto"
 	stded "crypto/ed25519"
@@ -75,8 +77,98 @@ func (r *patReader) Read(p []byte) (int, error) {
 	return n, nil
 }
 
+// ctrStream is a deterministic stand-in for the process-wide entropy source: byte i of the stream is a
+// fixed function of i, every read is recorded.
+type ctrStream struct {
+	pos   int
+	calls int
+}
+
+func ctrBlock(i int) [64]byte {
+	var b [8]byte
+	for j := range b {
+		b[j] = byte(uint64(i) >> (8 * uint(j)))
+	}
+	return sha512.Sum512(append([]byte("verif entropy stream"), b[:]...))
+}
+
+func (s *ctrStream) at(off, n int) []byte {
+	out := make([]byte, 0, n)
+	for len(out) < n {
+		blk := ctrBlock(off / 64)
+		out = append(out, blk[off%64])
+		off++
+	}
+	return out
+}
+
+func (s *ctrStream) Read(p []byte) (int, error) {
+	copy(p, s.at(s.pos, len(p)))
+	s.pos += len(p)
+	s.calls++
+	return len(p), nil
+}
+
+// jobC14DefaultSource: GenerateKey(nil) takes its seed from crypto/rand.Reader (documented). With that
+// package variable replaced by a recorded deterministic stream, a LONG run of calls (3000; thorough:
+// 70000, past the 256th, 4096th and 65536th call of the process) must return, call after call, the key
+// of 32 stream bytes that no other call used: the i-th key is NewKeyFromSeed of bytes [32i, 32i+32)
+// (an implementation that reads ahead is tolerated as long as each key comes from its own 32 bytes of
+// what was read).
+func jobC14DefaultSource(c *rt.Ctx) {
+	c.Require("gen/default-source")
+	if !c.Take() {
+		return
+	}
+	n := 3000
+	if c.Thorough() {
+		n = 70000
+	}
+	st := &ctrStream{}
+	saved := cryptorand.Reader
+	cryptorand.Reader = st
+	defer func() { cryptorand.Reader = saved }()
+	used := map[int]bool{}
+	for i := 0; i < n; i++ {
+		pub, priv, err := GenerateKey(nil)
+		c.Step(1)
+		if err != nil || len(priv) != 64 || len(pub) != 32 {
+			c.Violation("C14 default-source call", fmt.Sprintf("GenerateKey(nil) call %d: err=%v key lengths %d/%d", i+1, err, len(pub), len(priv)), map[string]interface{}{"call": i + 1})
+			return
+		}
+		seed := priv.Seed()
+		off := 32 * i
+		if !bytes.Equal(seed, st.at(off, 32)) {
+			off = -1
+			consumed := st.at(0, st.pos)
+			for o := 0; o+32 <= len(consumed); o++ {
+				if bytes.Equal(consumed[o:o+32], seed) {
+					off = o
+					break
+				}
+			}
+		}
+		want := NewKeyFromSeed(append([]byte{}, seed...))
+		overlap := false
+		for o := off - 31; o <= off+31 && off >= 0; o++ {
+			overlap = overlap || used[o]
+		}
+		if off < 0 || overlap || !bytes.Equal(priv, want) || !bytes.Equal(pub, want[32:]) {
+			c.Violation("C14 default-source seed", fmt.Sprintf("GenerateKey(nil) call %d of the process: the key's seed %x is not 32 fresh bytes of what crypto/rand.Reader delivered (offset %d, reused %v, %d bytes read in %d reads)", i+1, seed, off, overlap, st.pos, st.calls),
+				map[string]interface{}{"call": i + 1, "seed": ref.Hex(seed), "stream_offset": off, "bytes_read": st.pos})
+			return
+		}
+		used[off] = true
+	}
+	c.Class("gen/default-source")
+	c.Distinct("default-source", true)
+	c.Extra("default_source_calls", int64(n))
+	c.Extra("default_source_bytes_read", int64(st.pos))
+}
+
 func jobC14(c *rt.Ctx) {
 	c.Require("gen/ok", "gen/fail", "equal/flip", "equal/same", "equal/foreign", "accessor")
+	jobC14DefaultSource(c)
 	pats := [][]int{{0}, {1}, {31, 1}, {16, 16}, {33}, {64}, {7, 0}, {-1, 5}, {-1, -1, 32}, {-1, 1}, {-1, -1, -1, -1, -1, 1}}
 	stream := make([]byte, 96)
 	for i := range stream {
